@@ -341,6 +341,11 @@ class CallMixin:
             return res
         if isinstance(f, ModuleRef):
             return self.call_external(node, st, f.name, None)
+        if type(f).__name__ == "ContractFn":
+            res = []
+            for s, args, kw in self.ev_args(node, st):
+                res += self.apply_contract(node, s, f.contract, args, kw)
+            return res
         if isinstance(f, Val):
             return self.call_value(node, st, f)
         raise Unsupported(node, f"call of {f!r}")
@@ -976,13 +981,19 @@ class CallMixin:
                 if d is None:
                     raise Unsupported(node, f"missing argument {fname} for {c.short}")
                 env[fname] = d
-        for fname in formals:
-            env[fname] = self.coerce(env[fname], c.params[fname], node)
         line = getattr(node, "lineno", 0)
+        for fname in formals:
+            a = env[fname]
+            if isinstance(a, Val) and isinstance(a.sort, OptSort) and a.sort.inner == c.params[fname]:
+                # Optional[T] passed where T is expected: legal only when it is not None here
+                self.oblige(st, "safe", f"not-none@{line}:{fname}", z3.Not(a.t[0]), node)
+                env[fname] = opt_val(a)
+            else:
+                env[fname] = self.coerce(a, c.params[fname], node)
         pre_st = St(env, st.heap, list(st.pc), None, st.ghost)
         # 1. preconditions
         for k_, r in enumerate(c.requires):
-            g = self.spec_bool(r, pre_st)
+            g = self.spec_bool(r[6:] if r.startswith("ghost:") else r, pre_st)
             self.oblige(st, "pre", f"{c.short}#{k_}@{line}", g, node)
         # recursion: measure must decrease
         if c is self.contract and c.decreases:
